@@ -535,6 +535,7 @@ func runC07(e *Engine, r *Report) {
 	ruleNotifyApplied(e, r)
 	ruleConfigChangeNeverSkipped(e, r)
 	ruleApplyIndexAtomic(e, r)
+	ruleBootstrapGate(e, r)
 	ruleBootstrapSorted(e, r)
 	ruleCampaignPredicate(e, r)
 	ruleElectionMessageGuard(e, r)
